@@ -298,7 +298,7 @@ def index_cases(ctx):
         yield emit('api:IndexGO-corpus', auto, labels, ops, [True] * len(ops))
     for auto, labels, ops, look in index_exhaustive(ctx):
         yield emit('api:IndexGO-exhaustive', auto, labels, ops, look)
-    for auto, labels, ops, look in index_random(ctx, ctx.n(150, 3000)):
+    for auto, labels, ops, look in index_random(ctx, ctx.n(150, 2000)):
         if ops:
             yield emit('api:IndexGO-random', auto, labels, ops, look)
 
@@ -805,7 +805,7 @@ def frame_cases(ctx):
         yield emit('api:FrameGO-corpus', init, ops, [True] * len(ops))
     for init, ops, look in frame_exhaustive(ctx):
         yield emit('api:FrameGO-exhaustive', init, ops, look)
-    for init, ops, look in frame_random(ctx, ctx.n(200, 4000)):
+    for init, ops, look in frame_random(ctx, ctx.n(200, 2500)):
         yield emit('api:FrameGO-random', init, ops, look)
 
 
@@ -1494,7 +1494,7 @@ def hier_exhaustive(ctx):
     alpha = [('append', ('a', 2)), ('append', ('b', 1)), ('append', ('b', 2)), ('append', ('c', 1)), ('append', ('b',)),
              ('extend', [('c', 1), ('c', 2)]), ('extend', [('d', 1), ('e', 1)]), ('extend', [('b', 7), ('f', 1)]), ('read',)]
     for labels in ([('a', 1)], [('a', 1), ('b', 1)]):
-        for n in range(1, N + 1):
+        for n in range(1, (N if len(labels) == 2 else 3) + 1):
             for ops in itertools.product(alpha, repeat=n):
                 yield labels, 2, list(ops), [i % 2 == 1 for i in range(n)]
 
@@ -1605,7 +1605,7 @@ def hier_cases(ctx):
         yield emit('api:IndexHierarchyGO-corpus', labels, depth, ops, [True] * len(ops), model)
     for labels, depth, ops, look in hier_exhaustive(ctx):
         yield emit('api:IndexHierarchyGO-exhaustive', labels, depth, ops, look)
-    for labels, depth, ops, look in hier_random(ctx, ctx.n(150, 3000)):
+    for labels, depth, ops, look in hier_random(ctx, ctx.n(150, 2000)):
         yield emit('api:IndexHierarchyGO-random', labels, depth, ops, look)
 
 
@@ -2065,7 +2065,7 @@ def world_cases(ctx):
                             ops.append(('grow', 0, grow_op(k)))
                         yield emit('api:world-exhaustive', src, init0, ops)
     # random worlds
-    for _ in range(ctx.n(60, 1500)):
+    for _ in range(ctx.n(60, 800)):
         nrows = rng.choice([1, 2, 3])
         rows = ['x', 'y', 'z'][:nrows]
         ncols = rng.randint(0, 3)
